@@ -15,8 +15,9 @@ fresh symbols supplied by the contract; heap objects the loop may write are over
 
 What is checked mechanically, what is trusted:
   * LOCALS: the set of names assigned anywhere in the loop body is computed from the function's own source (ast) on every run; every such name must
-    be havoc'd by the contract (a value, or POISON for a loop-local temporary that is always assigned before use: any use of POISON aborts the
-    obligation as undecided).  A body that starts assigning a new local makes the obligation undecided, not held.
+    be havoc'd: with the contract's fresh value if it is loop-carried state, otherwise with POISON (a loop-local temporary is always assigned
+    before use; any USE of POISON aborts the obligation as undecided).  A body that starts carrying a new local across iterations therefore
+    makes the obligation undecided, never held; a body that merely introduces a new temporary is verified as before.
   * HEAP: on the step path everything reachable (attributes, list / dict items, depth-first) from the frame's locals and the generic element is
     snap-shotted after the havoc and compared by identity after the body; a write outside the declared `modifies` set fails clause <loop>.frame.
     Trusted: that reachability from the frame's locals covers what the loop can reach (module globals are not followed), and that a write which
@@ -93,6 +94,8 @@ def _snapshot(roots):
         o = stack.pop()
         if isinstance(o, _ATOMS) or id(o) in seen or callable(o) and not hasattr(o, "__dict__"):
             continue
+        if (type(o).__module__ or "").split(".")[0] in ("pvc", "z3"):          # the verifier's own objects (harness, context, this iterable) are not program state
+            continue
         seen.add(id(o))
         if isinstance(o, dict):
             snap[id(o)] = (o, dict(o))
@@ -138,10 +141,14 @@ class CutSeq:
     inv      (i, L) -> [(clause name, formula)]       the invariant at index i over the frame's locals L (heap read through L)
     havoc    (i, L) -> {local name: new value}        fresh loop state; also overwrites the heap cells listed by `modifies`
     modifies (L) -> [(object, attribute or key)]      heap cells the loop may write
+    ghost    (i, L, e) -> None                        optional ghost update, run at the second arrival BEFORE the checks: may only DEFINE ghost symbols
+                                                      at index i+1 from the state the body left (like `ghost r := r + ...` at the end of a loop body)
+    elem_post (i, L, e) -> [(clause name, formula)]   optional per-element postcondition (what the body did to the i-th element itself)
     """
 
-    def __init__(self, h, name, n, elem, inv, havoc, modifies=lambda L: []):
+    def __init__(self, h, name, n, elem, inv, havoc, modifies=lambda L: [], ghost=None, elem_post=None):
         self.h, self.name, self.n, self.elem, self.inv, self.havoc, self.modifies = h, name, n, elem, inv, havoc, modifies
+        self.ghost, self.elem_post = ghost, elem_post
         self.arrivals = 0
 
     def __iter__(self):
@@ -174,9 +181,10 @@ class _CutIter:
             h.assume(i < s.n if case == "step" else i == s.n)
             self.i = i
             new = s.havoc(i, L)
-            missing = sorted(assigned - targets - set(new))
-            if missing:
-                raise EngineError(f"loop cut {s.name}: the loop body assigns {missing}, which the contract does not havoc")
+            # names the body assigns and the contract does not mention are treated as loop-local temporaries: POISON after the havoc.  Sound: a
+            # temporary is assigned before it is read; if such a name is in fact loop-carried, its first read raises EngineError (undecided).
+            for nm in sorted(assigned - targets - set(new)):
+                new[nm] = POISON
             _write_locals(f, new)
             L = dict(f.f_locals)
             for nm, cl in s.inv(i, L):
@@ -189,12 +197,20 @@ class _CutIter:
             self.allowed = {(id(o), k) for o, k in s.modifies(L)}          # (after elem: the contract may list cells of the generic element)
             self.snap = _snapshot(list(L.values()) + [e])
             self.stage = 1
+            self.e = e
             return e
         if self.stage == 1:
             L = dict(f.f_locals)
+            if s.ghost is not None:
+                s.ghost(self.i, L, self.e)
+            if s.elem_post is not None:
+                for nm, cl in s.elem_post(self.i, L, self.e):
+                    h.check(f"{s.name}.element.{nm}", cl)
             for nm, cl in s.inv(self.i + 1, L):
                 h.check(f"{s.name}.preserved.{nm}", cl)
             bad = _frame_violations(self.snap, self.allowed)
+            if bad and __import__("os").environ.get("PVC_DEBUG"):
+                print("loop cut", s.name, "frame:", sorted(set(bad)), file=sys.stderr)
             h.check(f"{s.name}.frame", not bad, note="written outside the loop's declared frame: " + ", ".join(sorted(set(bad))[:6]) if bad else None)
             from .sym import PathAbort
             raise PathAbort()          # the inductive step ends here; clauses evaluated so far count
